@@ -79,6 +79,13 @@ func genLabel(t *rapid.T) string {
 	}
 }
 
+// genFamilyLabel draws labels that are prefixes/extensions of one another (host:80 vs host:8080,
+// /mnt/disk1 vs /mnt/disk10), as real host lists and volume lists contain.
+func genFamilyLabel(t *rapid.T) string {
+	base := rapid.SampledFrom([]string{"10.0.0.1:80", "origin1:80", "/mnt/disk1", "n1", "origin1", "10.0.0.1"}).Draw(t, "base")
+	return base + rapid.SampledFrom([]string{"", "0", "80", "1", "00"}).Draw(t, "ext")
+}
+
 func genWeight(t *rapid.T) int {
 	switch rapid.IntRange(0, 3).Draw(t, "wform") {
 	case 0:
@@ -99,7 +106,11 @@ func gen(t *rapid.T) Case {
 	if (kind == shaBig || kind == murmurBig) && n > 10 {
 		n = 10 // big.Float scoring is an order of magnitude slower; keeps the per-case cost bounded
 	}
-	labels := rapid.SliceOfNDistinct(rapid.Custom(genLabel), n+1, n+1, rapid.ID[string]).Draw(t, "labels")
+	labelGen := rapid.Custom(genLabel)
+	if rapid.IntRange(0, 2).Draw(t, "family") == 0 {
+		labelGen = rapid.OneOf(rapid.Custom(genFamilyLabel), rapid.Custom(genFamilyLabel), rapid.Custom(genLabel))
+	}
+	labels := rapid.SliceOfNDistinct(labelGen, n+1, n+1, rapid.ID[string]).Draw(t, "labels")
 	equalWeights := rapid.IntRange(0, 3).Draw(t, "equalWeights") == 0
 	c := Case{Kind: kind}
 	for i := 0; i < n; i++ {
@@ -172,9 +183,13 @@ func refL(kind int, key []byte, label string) (float64, bool) {
 		}
 		u = float64(v) / float64(uint64(1)<<53)
 	default:
-		// BigIntToFloat64: the hash as a big-endian integer divided by the largest hash value. The 64
+		// BigIntToFloat64: the hash as a big-endian integer divided by the largest hash value. The 128
 		// leading bits determine the quotient far beyond the tolerance used below.
-		u = float64(binary.BigEndian.Uint64(sum[:8])) / float64(math.MaxUint64)
+		hi := float64(binary.BigEndian.Uint64(sum[:8]))
+		if len(sum) >= 16 { // keep full float64 precision when the hash starts with zero bits
+			hi += float64(binary.BigEndian.Uint64(sum[8:16])) / float64(math.MaxUint64)
+		}
+		u = hi / float64(math.MaxUint64)
 	}
 	if !(u > 0 && u < 1) {
 		return 0, false
@@ -318,10 +333,9 @@ func run(c Case) pbt.Verdict {
 				fails[w] = &failure{ki, fmt.Sprintf(format, args...) + fmt.Sprintf(" [key %q, %s, nodes in insertion order %v]", keys[ki], kindName[c.Kind], ids)}
 			}
 			// Every worker owns its hash objects (the type documents no concurrency guarantees).
-			a, b, d := newHash(c.Kind), newHash(c.Kind), newHash(c.Kind)
+			a, b := newHash(c.Kind), newHash(c.Kind)
 			for _, nd := range c.Nodes {
 				a.AddNode(nd.Label, nd.Weight)
-				d.AddNode(nd.Label, nd.Weight)
 			}
 			// b: the same nodes in the second insertion order, with the new node inserted in the middle.
 			for k, i := range c.Order2 {
@@ -353,6 +367,13 @@ func run(c Case) pbt.Verdict {
 				return out
 			}
 
+			// Relative score gap below which the reference does not determine the order of two nodes: the
+			// UInt64ToFloat64 reference is the documented float64 formula itself, the BigIntToFloat64
+			// reference rounds differently from big.Float (error < 1e-15 relative).
+			tieTol := 1e-12
+			if c.Kind == shaBig || c.Kind == murmurBig {
+				tieTol = 1e-9
+			}
 			// Phase 1: base order against the reference, insertion independence + node addition, truncation.
 			for _, ki := range mine {
 				cur = ki
@@ -374,7 +395,7 @@ func run(c Case) pbt.Verdict {
 				sort.Slice(sorted, func(i, j int) bool { return sorted[i].s > sorted[j].s })
 				unambiguous := true
 				for i := 0; i+1 < n; i++ {
-					if !(sorted[i].s-sorted[i+1].s > 1e-6*math.Abs(sorted[i].s)) {
+					if !(sorted[i].s-sorted[i+1].s > tieTol*math.Abs(sorted[i].s)) {
 						unambiguous = false
 					}
 				}
@@ -469,6 +490,16 @@ func run(c Case) pbt.Verdict {
 
 			// Phase 3: every single-node removal and re-addition, on the key subset.
 			for x := 0; x < n; x++ {
+				// A fresh hash per removal, alternating between the two insertion orders, so that the node
+				// removed sits at every position of the node list, behind and before every other label.
+				d := newHash(c.Kind)
+				for k := range c.Nodes {
+					i := k
+					if x%2 == 1 {
+						i = c.Order2[k]
+					}
+					d.AddNode(c.Nodes[i].Label, c.Nodes[i].Weight)
+				}
 				d.RemoveNode(c.Nodes[x].Label)
 				if len(d.Nodes) != n-1 {
 					fail(mine[0], "RemoveNode(%s) left %d of %d nodes", ids[x], len(d.Nodes), n)
@@ -536,6 +567,17 @@ func run(c Case) pbt.Verdict {
 		if nd.Weight != c.Nodes[0].Weight {
 			eq = false
 		}
+	}
+	prefixPair := false
+	for i := range c.Nodes {
+		for j := range c.Nodes {
+			if i != j && strings.HasPrefix(c.Nodes[j].Label, c.Nodes[i].Label) {
+				prefixPair = true
+			}
+		}
+	}
+	if prefixPair {
+		cls = append(cls, "labels-with-prefix-pair")
 	}
 	if eq {
 		cls = append(cls, "equal-weights")
@@ -630,14 +672,14 @@ func TestProp(t *testing.T) {
 		ID: "C22",
 		Rule: "part order: generated node set (1-16 distinct labels, weights 1-1000 or all equal), hash/score pair in {murmur3,sha256}x{UInt64ToFloat64,BigIntToFloat64} (murmur3+UInt64 half of the cases), " +
 			"a second insertion order, a node to remove, a new node to add, 8-48 long hex keys, truncation sizes; for ALL 65536 four-hex-digit keys + the 256 two-digit upper-case keys + the long keys: " +
-			"GetOrderedNodes equals the node set ordered by the harness's own reference score (keys where two reference scores are within 1e-6 relative are skipped and counted), exported Score values strictly descend and match the reference, " +
+			"GetOrderedNodes equals the node set ordered by the harness's own reference score (keys where two reference scores are within 1e-12 relative, 1e-9 for BigIntToFloat64, are skipped and counted), exported Score values strictly descend and match the reference, " +
 			"a second hash holding the nodes in the other insertion order plus the new node returns the same list with only the new node inserted, RemoveNode of the drawn node only deletes it; on a subset (every 64th shard, the two-digit keys, the long keys) " +
 			"truncation to n and EVERY single-node RemoveNode and re-AddNode are checked; evaluations = ordered lists judged; non-trivial = at least 2 nodes; distinct = distinct (hash pair, node set). " +
 			"part scorefunc: batches of 64-bit values concentrated on k<<53; UInt64ToFloat64 with a murmur3 re-hasher that already absorbed 0-24 bytes must equal the documented value and lie in (0,1); evaluations = values",
 		Assumptions: []string{
 			"reference score written from the documentation of lib/hrw (weighted rendezvous hashing: -weight/ln(u), u derived from hash(key bytes||label)) on spaolacci/murmur3 and crypto/sha256 directly",
 			"node labels are distinct, weights are positive, keys are even-length hex strings (what hex.DecodeString accepts)",
-			"keys for which two reference scores are within 1e-6 (relative) of each other are not judged (order undetermined by the statement); cases containing such keys are reported as a class",
+			"keys for which two reference scores are within 1e-12 (1e-9 for BigIntToFloat64) relative of each other are not judged (order undetermined by the statement); cases containing such keys are reported as a class",
 		},
 		Parts: []pbt.Part{
 			pbt.NewPart("order", 1, gen, run),
